@@ -5,12 +5,14 @@ use std::io::{self, BufRead, Write};
 use std::panic;
 
 mod adjustable;
+mod context;
 mod ugraph;
 
 
 fn run_case(fam: &str, args: &[i128]) -> Vec<i128> {
     match fam {
         "adjustable" => adjustable::run(args),
+        "context" => context::run(args),
         f if f.starts_with("ugraph_") => ugraph::run(args, f[7..].parse().unwrap()),
         f if f.starts_with("spath_") => ugraph::run_spath(args, f[6..].parse().unwrap()),
         _ => panic!("unknown family {fam}"),
